@@ -24,7 +24,15 @@ KWAGRS_TEMPLATE = "{% for key, value in kwargs.items() %}" \
 keywords_set = set(keyword.kwlist)
 builtins_set = set(__builtins__.keys())
 other_common_names_set = {'datetime', 'time', 'date', 'defaultdict', 'schema'}
-blacklist_words = frozenset(keywords_set | builtins_set | other_common_names_set)
+# Names that generated modules import or rely on: a field or a class with such a name would shadow them
+generated_code_names_set = {
+    'attr', 'field', 'dataclass', 'optional', 'convert_strings', 'self',
+    'json', 'copy', 'fields', 'construct', 'validate',
+    'Any', 'Dict', 'List', 'Literal', 'Optional', 'Union',
+    'BaseModel', 'Field', 'SQLModel', 'Config', 'ClassType',
+    'IntString', 'FloatString', 'BooleanString', 'IsoDateString', 'IsoTimeString', 'IsoDatetimeString',
+}
+blacklist_words = frozenset(keywords_set | builtins_set | other_common_names_set | generated_code_names_set)
 ones = ['', 'one', 'two', 'three', 'four', 'five', 'six', 'seven', 'eight', 'nine']
 
 
